@@ -312,6 +312,8 @@ func parseBlock(nativeBlock *hclsyntax.Block, from, leadComments, lineComments, 
     }
 
     before, labelsNode, from := parseBlockLabels(nativeBlock, from)
+    // whatever stands between the type name and the first label (a comment) is part of the file too
+    children.AppendUnstructuredTokens(before.Tokens())
     block.labels = labelsNode
     children.AppendNode(labelsNode)
 
@@ -460,6 +462,9 @@ func parseTraversalStep(nativeStep hcl.Traverser, from inputTokens) (before inpu
             key := newNumber(valToken)
             step.key = children.Append(key)
             children.AppendUnstructuredTokens(valAfter.Tokens())
+        default:
+            // a key of another kind (true, false, null): keep its tokens as they are
+            children.AppendUnstructuredTokens(keyTokens.Tokens())
         }
 
         children.AppendUnstructuredTokens(cBrack.Tokens())
